@@ -110,6 +110,7 @@ inductive Act
   | acceptDone (id : Nat)
   | acceptFail (id : Nat)
   | connClose (id : Nat)
+  | peerHalfClose (id : Nat)
   | setMax (n : Int)
   | adjust (id : Nat)
 deriving DecidableEq, Repr
@@ -144,6 +145,11 @@ def step (c : Cap) : Act → Option Cap
       if 1 ≤ c.cur then some (semRelease { c with opened := c.opened.erase id, closed := id :: c.closed } 1) else none
     else if id ∈ c.closed then some c      -- sync.Once: nothing happens
     else none
+  | .peerHalfClose id =>
+    -- the peer shuts down its sending side (FIN): the server's reads return EOF, the connection is still
+    -- open on the server side and keeps its unit until `Close` (regenerated fact: the unit is released in
+    -- `limitListenerConn.Close` only)
+    if id ∈ c.opened then some c else none
   | .setMax n =>
     -- `SetMaxCount(n)`: `n` is clamped to `maxCapacity` (`setMaxCount`, tied by translation)
     if 0 ≤ n then
